@@ -15,7 +15,9 @@ CONFIG = {
                   "dateTimes), bindings_total_preorder (multi-key rows), sorted_perm + sorted_respects_lt for ANY sort meeting "
                   "the std contract (a permutation, sorted when the comparator is a total preorder on the input). The full "
                   "statement order_total_preorder is REFUTED for the code as written by kernel-checked witnesses "
-                  "(order_not_transitive, order_not_transitive_welltyped, numeric_ties_not_transitive): recorded findings. "
+                  "(order_not_transitive, order_not_transitive_welltyped, numeric_ties_not_transitive): recorded findings; the full "
+                  "statement IS proved for a repaired comparator (repaired_total_preorder: class rank first, exact comparison "
+                  "inside a class), which documents the fix. "
                   "The model is tied to /repo by the differential only (value parsing, numeric coercions, comparator outcome "
                   "matrices observed through two-row ORDER BY queries): that part is testing, not proof.",
     "level_note": "Trusted: transcription of exec.rs/expression.rs/value*.rs and of the third-party parsers/conversions "
@@ -27,7 +29,8 @@ CONFIG = {
     "lean_targets": ["SophiaProofs.Props.C14", "SophiaProofs.Audit.C14"],
     "theorems": ["order_not_transitive", "order_not_transitive_welltyped", "numeric_ties_not_transitive",
                  "not_order_total_preorder", "order_total_preorder_partial", "respects_lt", "kind_order", "desc_reverse",
-                 "lexicographic_keys", "bindings_total_preorder", "sorted_perm", "sorted_respects_lt", "refSort_contract"],
+                 "lexicographic_keys", "bindings_total_preorder", "sorted_perm", "sorted_respects_lt", "refSort_contract",
+                 "repaired_total_preorder", "repaired_respects_cmp_partial", "repaired_kind_order"],
     "native_ok": [],
     "trivial_re": r"^bad-",
     "rule": "T requests: n values (class tables from a 270-value table covering every XSD numeric type incl. derived integer "
